@@ -29,10 +29,13 @@ ALPHA = ["@a", "@comment", "@string", "@preamble", "{", "}", '"', ",", "=", "\n"
 HOSTILE_NAMES = ["x\\{y", "x\\}y", "\\{", "\\}", "x\\{\\}y", "\\}\\{", "{0}", "{}", "%s", "%(k)s", "%d", "%", "x%", "{x", "x}", "{x}", "a{b}c", "\\", "x\\", "\\\\", "$1",
                  "\\1", "\\g<0>", "(", ")", "[", "]", "a(b", "a[b", "*", "+", "?", "a|b", "^", "$", ".", "\\d", "\\N{X}", "\\x", "\\u12", "'", "\\'", "`", "a'b", "é", "İ", "ß", "\u00a0", "\ufeff",
                  "\u2028", "\x0b", "\x0c", "\x1c", "\x85", "\u3000", "#", "x#y", "a=b", "=", "a b", "key with blanks", "\"", "a\"b", "\"x\"", "@", "x@y", "@x", ",", "None", "True", "0", "-1", "__class__",
-                 "__dict__", "ID", "ENTRYTYPE", "\\\"", "\\,", "\\=", "\\@", "\\#", "x\\ y", "\t", "x\ty", "\r", "x" * 300, "é" * 70, "\\{" * 40, "\\\\" * 40 + "\\}"]
+                 "__dict__", "ID", "ENTRYTYPE", "\\\"", "\\,", "\\=", "\\@", "\\#", "x\\ y", "\t", "x\ty", "\r", "x" * 300, "é" * 70, "\\{" * 40, "\\\\" * 40 + "\\}",
+                 # digit-like texts: str.isdigit()/isdecimal()/isnumeric() and int() disagree on them (seed C01-k)
+                 "\u00b2", "\u2460", "\u0661\u0662", "\uff11\uff12", "\u00bd", "\u2082", "\u216b", "\u4e09", "007", "-1", "+1", "1_000", "1e5", "0x10", " 12 ", "12\n", "9" * 4400, "9" * 700]
 NAME_SHAPES = ["@a{%s, t = 1}", "@a{%s, t = 1}\n@a{%s, t = 2}", "@a{%s}\n@b{%s}\n@a{%s,}", "@string{%s = {v}}", "@string{%s = {v}}\n@string{%s = \"w\"}\n@a{k, t = %s}",
                "@a{k, %s = 1}", "@a{k, %s = 1, %s = {2}}", "@a{k, t = 1, %s = 1, u = 2, %s = 3, %s = 4}", "@%s{k, t = 1}", "@%s{k, t = 1}\n@%s{k, t = 2}", "@a{k, t = %s}",
-               "@a{k, t = %s # %s}", "@a{%s, %s = %s}\n@a{%s, %s = %s}", "@string{%s = %s}\n@string{%s = %s}", "@a{%s, t = {x}\n@a{%s, t = {y}}\n@a{%s, t = {z}}"]
+               "@a{k, t = %s # %s}", "@a{%s, %s = %s}\n@a{%s, %s = %s}", "@string{%s = %s}\n@string{%s = %s}", "@a{k, year = {%s}, volume = %s, pages = \"%s\", month = %s, number = {%s}, edition = {%s}, chapter = %s, issue = \"%s\"}",
+               "@string{year = {%s}}\n@a{k, year = year, volume = {%s} # year}", "@a{%s, t = {x}\n@a{%s, t = {y}}\n@a{%s, t = {z}}"]
 
 
 def _L(tier):
